@@ -1,7 +1,7 @@
 import Driver.Common
 import EgVerif.Spec.ConnCap
 /-! Judges for C17: `sem` (Semaphore alone), `listener` (LimitListener over real sockets),
-`mqtt` (Broker.maxAllowedConnection). Each replays the harness operations in the model,
+`mqtt` (Broker.maxAllowedConnection), `reload` (= `listener` on a real HTTPServer driven by reloads). Each replays the harness operations in the model,
 exploring every order of the asynchronous parts where the harness let them race, and
 evaluates the property on the implementation's observations. -/
 open Lean Driver EgVerif.ConnCap
@@ -349,8 +349,22 @@ def mqttJudge : Judge := liftJudge fun input obs => do
          tags := dedup (tags ++ (if atCapTakeover then ["takeover-at-cap"] else []) ++ [s!"cap{cap}"]),
          nontrivial := tags.contains "burst" }
 
+/-- `reload`: the listener judge on observations taken from a real `HTTPServer` whose capacity changes
+are configuration reloads (`runtime.reload → SetMaxConnection`). A case in which the server could not be
+started on a free port (or was restarted) is inconclusive. -/
+def reloadJudge : Judge := fun input obs =>
+  match obs.getObjVal? "inconclusive" with
+  | .ok (.str why) => { agree := true, spec := true, tags := ["inconclusive:" ++ why], nontrivial := false }
+  | _ =>
+    if optBool obs "restarted" then
+      { agree := false, spec := false, sig := "reload:server-restarted-on-cap-change",
+        note := "a reload that changes only maxConnections / cacheSize restarted the HTTP server (established connections dropped)" }
+    else
+    let v := semJudge true input obs
+    { v with tags := v.tags ++ ["via-httpserver-reload"] }
+
 def judges : List (String × Judge) :=
-  [("sem", semJudge false), ("listener", semJudge true), ("mqtt", mqttJudge)]
+  [("sem", semJudge false), ("listener", semJudge true), ("mqtt", mqttJudge), ("reload", reloadJudge)]
 
 end Driver.C17
 
